@@ -48,6 +48,21 @@ def plan(mode, quick, seed):
 
 
 def gen_cases(ctx, mode, design=1):
+    """Run the three generator configs.  INST_CASE_CACHE=<dir> (mutant loops only) re-uses the generated cases of an
+    earlier run with the same mode / tier / seed: the generator does not depend on the code under test."""
+    cache = os.environ.get("INST_CASE_CACHE")
+    cpath = os.path.join(cache, "%s_%s_%d.json" % (mode, ctx.tier, ctx.seed)) if cache else None
+    if cpath and os.path.exists(cpath):
+        common.log("cases taken from %s" % cpath)
+        return json.load(open(cpath))
+    out = _gen_cases(ctx, mode, design)
+    if cpath:
+        os.makedirs(cache, exist_ok=True)
+        json.dump(out, open(cpath, "w"))
+    return out
+
+
+def _gen_cases(ctx, mode, design=1):
     plans, off = plan(mode, ctx.quick, ctx.seed)
     timeout = 2400 if ctx.quick else 9000
 
